@@ -137,8 +137,15 @@ def stretch_parameter_name(ctx, rep, rule):
                         ok = True
                 if isinstance(w, ast.If) and name.id in _names(w.test) and lst.id in _names(w.test) and any(isinstance(s, ast.Raise) for s in ast.walk(w)):
                     ok = True
+        once = None
+        if isinstance(name, ast.Name) and isinstance(lst, ast.Name):
+            for w in ast.walk(f.node):
+                if isinstance(w, ast.If) and name.id in _names(w.test) and lst.id in _names(w.test) and not any(isinstance(s_, ast.Raise) for s_ in ast.walk(w)) and any(isinstance(s_, (ast.Assign, ast.AugAssign)) and name.id in {t.id for t in ast.walk(s_) if isinstance(t, ast.Name) and isinstance(t.ctx, ast.Store)} for s_ in w.body):
+                    once = w
         if ok:
             rep.ok(rule, cons, "the name is changed (or the gate refused) while a parent parameter has it", loc)
+        elif once is not None:
+            rep.violation(rule, cons, f"`if {ast.unparse(once.test)[:60]}` changes the name once, not until it is unused: a parent that has both `stretch` and `stretch_` (or a gate set stretched three times) gets a variant with two parameters of one name, which no call can satisfy", f"{f.path}:{once.lineno}")
         else:
             rep.undecided(rule, cons, "cannot see how the name of the appended parameter is kept distinct", loc)
 
@@ -269,7 +276,16 @@ def constant_chain(ctx, rep, rule, sites):
             continue
         handles = any((kinds & {"Constant", "AnnotatedValue"}) and _is_value_of(n.args[0]) for n, kinds in tests)
         loc = f"{f.path}:{direct[0].lineno}"
+        shortcut = None
         if handles:
+            for st in ast.walk(f.node):
+                if isinstance(st, ast.If) and any(isinstance(c, ast.Call) and isinstance(c.func, ast.Name) and c.func.id == "isinstance" and len(c.args) == 2 and _is_value_of(c.args[0]) and {"Constant", "AnnotatedValue"} & {ast.unparse(x).split(".")[-1] for x in (c.args[1].elts if isinstance(c.args[1], ast.Tuple) else [c.args[1]])} for c in ast.walk(st.test)):
+                    for r in st.body:
+                        if isinstance(r, ast.Return) and r.value is not None and f.cls and "override" in ast.unparse(f.node) and not any(isinstance(c, ast.Call) and isinstance(c.func, ast.Attribute) and c.func.attr == f.name for c in ast.walk(r.value)):
+                            shortcut = r
+        if shortcut is not None:
+            rep.violation(rule, cons, f"`{ast.unparse(shortcut)}` takes the inner constant's declared value instead of resolving it like any constant: an override of the inner let does not reach the outer one (`let n 2; let reps n; loop reps {{..}}` with n overridden to 3 runs twice)", f"{f.path}:{shortcut.lineno}")
+        elif handles:
             rep.ok(rule, cons, "a Constant-valued constant is followed", loc)
         else:
             rep.violation(rule, cons, f"`{ast.unparse(direct[0])}` looks one level deep only: for Constant('b', Constant('a', 2.0)) -- which Constant documents as legal and which has the same value and kind as `a` -- the {sites[q]} fails", loc, witness="b = builder.let('b', a)")
@@ -319,16 +335,22 @@ def builder_relinks(ctx, rep, rule):
     if not rets:
         raise AnalysisError(f"{rule}: no `return False, gate` in RebuildMacroInContextVisitor.visit_GateStatement")
     bad = None
+    by_equality = None
     for r in rets:
         ctrl = _enclosing_ifs(vg.node, r)
         justified = False
+        native_branch = any((not taken) and "Macro" in ast.unparse(test) for test, taken in ctrl)
         for test, taken in ctrl:
             src = ast.unparse(test)
             if taken and ("gate_def" in src) and (".gate_def" in src or "is None" in src):
                 justified = True
+                if native_branch and ".gate_def" in src and not any(isinstance(c, ast.Compare) and isinstance(c.ops[0], ast.Is) for c in ast.walk(test)):
+                    by_equality = (r, test)
         if not justified:
             bad = r
-    if bad is not None:
+    if by_equality is not None and bad is None:
+        rep.violation(rule, cons, f"`{ast.unparse(by_equality[1])}` compares native definitions by equality, which looks at name and parameters only: a made-up `prepare_all` equals the circuit's busy definition and is not relinked (it counts as acting on no qubit), a made-up idle gate without parameters likewise", f"{vg.path}:{by_equality[0].lineno}", witness="b.loop(2, block_with_prepare_all)")
+    elif bad is not None:
         rep.violation(rule, cons, "a gate whose definition is not a macro is returned unchanged without comparing its definition with the circuit's: native gates (idle, busy, typed) in a macro made with CircuitBuilder.macro() keep anonymous definitions", f"{vg.path}:{bad.lineno}", witness="macro wait a { I_Px a } built with CircuitBuilder.macro(): wait q[1] reported as using q[1]")
     else:
         rep.ok(rule, cons, "unchanged only when the definition already is the circuit's (or the name is unknown)", vg.loc())
@@ -414,12 +436,16 @@ def parallel_branch_state(ctx, rep, rule):
     if not loops:
         raise AnalysisError(f"{rule}: DiscoverSubcircuits.visit_BlockStatement has no loop over the statements")
     ok = False
+    conj = None
     for lp in loops:
         for r in ast.walk(lp):
             if not isinstance(r, ast.Raise):
                 continue
             tests = [t for t, taken in _enclosing_ifs(vb.node, r) if taken]
             src = " ".join(ast.unparse(t) for t in tests)
+            for t in tests:
+                if isinstance(t, ast.BoolOp) and isinstance(t.op, ast.And) and sum(1 for v in t.values if isinstance(v, ast.Compare)) >= 2 and "parallel" not in ast.unparse(t):
+                    conj = t
             if "parallel" in src and any(f".{a}" in src or a in src for a in state):
                 ok = True
             elif "parallel" in src:
@@ -429,7 +455,9 @@ def parallel_branch_state(ctx, rep, rule):
                     for d in _local_defs(vb.node, nm):
                         if not isinstance(d, ast.AugAssign) and any(isinstance(x, ast.Attribute) and x.attr in state for x in ast.walk(d)):
                             ok = True
-    if ok:
+    if ok and conj is not None:
+        rep.violation(rule, cons, f"`{ast.unparse(conj)}` refuses a branch only when ALL of {sorted(state)} changed: a branch that only opens a trace (prepare_all) passes, and acceptance depends on the order of the branches again", f"{vb.path}:{conj.lineno}", witness="< prepare_all | I_Px q[0] >  vs  < I_Px q[0] | prepare_all >")
+    elif ok:
         rep.ok(rule, cons, f"a branch that changes {sorted(state)} next to other branches is refused", vb.loc())
     else:
         rep.violation(rule, cons, f"branches are visited one after the other and share {sorted('self.' + a for a in state)}: `< prepare_all | I_Px q[1] >` is accepted while `< I_Px q[1] | prepare_all >` is rejected (`gates must follow a prepare_all`), although the two used-qubit sets are disjoint in both orders", vb.loc(), witness="< prepare_all | I_Px q[1] > ; Px q[0] ; measure_all")
